@@ -60,6 +60,8 @@ private:
 // plain structs (no constructors: what matters is the memory the wrappers hang on their members)
 struct Pt { int x; double y; };
 struct Arr { int n; int *vals; const char *name; };
+struct Rec { int count[3]; int tail; double w[2]; double after; };  // fixed-size array members
+int recSum(const Rec *r);
 int ptSum(const Pt *p);
 void ptOut(Pt *p, int x);
 void ptScale(Pt *p, int k);
